@@ -39,23 +39,29 @@ def lock_version(text, name, what):
     return vs[0]
 
 
-def _metadata(harness):
+def _metadata(harness, all_features=False):
+    """all_features (optional; tools/gen_fn_arrayvec.py): `--all-features`, for a crate the harness links only under one of
+    ITS features (h-parsecfg links arrayvec under `core`); cached apart from the default-feature answer"""
     key = "packages" if harness == "h-roff" else "packages:" + harness
+    if all_features:
+        key += ":all-features"
     if key not in _meta:
         try:
-            out = subprocess.run(["cargo", "metadata", "--offline", "--format-version", "1"], cwd=_hdir(harness), check=True,
+            out = subprocess.run(["cargo", "metadata", "--offline", "--format-version", "1"] + (["--all-features"] if all_features else []),
+                                 cwd=_hdir(harness), check=True,
                                  stdout=subprocess.PIPE, stderr=subprocess.PIPE, timeout=120,
                                  env=dict(os.environ, CARGO_NET_OFFLINE="true")).stdout
             doc = json.loads(out)
             _meta[key] = doc["packages"]
-            _meta["resolve:" + harness] = doc.get("resolve") or {}
+            if not all_features:      # crate_features reads the resolve graph of the harness's OWN feature set
+                _meta["resolve:" + harness] = doc.get("resolve") or {}
         except (OSError, subprocess.SubprocessError, ValueError, KeyError) as e:
             raise ValueError("cargo metadata --offline in harness/%s failed: %s" % (harness, e))
     return _meta[key]
 
 
-def metadata_dir(name, version, harness="h-roff"):
-    hits = [p for p in _metadata(harness) if p["name"] == name]
+def metadata_dir(name, version, harness="h-roff", all_features=False):
+    hits = [p for p in _metadata(harness, all_features) if p["name"] == name]
     if len(hits) != 1 or hits[0]["version"] != version:
         raise ValueError("cargo metadata (harness/%s): package %s resolves to %r, Cargo.lock pins %s"
                          % (harness, name, [p["version"] for p in hits], version))
@@ -78,7 +84,7 @@ def crate_features(gm, name, harness="h-roff"):
         raise gm.GenError(str(e))
 
 
-def crate_dir(gm, name, harness="h-roff"):
+def crate_dir(gm, name, harness="h-roff", all_features=False):
     """(version, directory) of the third-party crate `name`; raises gm.GenError"""
     try:
         version = lock_version(gm.read("Cargo.lock"), name, "Cargo.lock")
@@ -92,7 +98,7 @@ def crate_dir(gm, name, harness="h-roff"):
         if len(dirs) != 1:
             raise ValueError("source of %s %s: %d directories `%s-%s` under %s" % (name, version, len(dirs), name, version, roots))
         if not override:
-            md = metadata_dir(name, version, harness)
+            md = metadata_dir(name, version, harness, all_features)
             if os.path.realpath(md) != os.path.realpath(dirs[0]):
                 raise ValueError("cargo links %s from %s, the translator reads %s" % (name, md, dirs[0]))
         return version, dirs[0]
@@ -100,9 +106,9 @@ def crate_dir(gm, name, harness="h-roff"):
         raise gm.GenError(str(e))
 
 
-def read_crate(gm, name, rel, harness="h-roff"):
+def read_crate(gm, name, rel, harness="h-roff", all_features=False):
     """text of `rel` (e.g. src/lib.rs) of the pinned version of crate `name`"""
-    version, d = crate_dir(gm, name, harness)
+    version, d = crate_dir(gm, name, harness, all_features)
     p = os.path.join(d, rel)
     try:
         with open(p, encoding="utf-8") as f:
